@@ -5,6 +5,7 @@ import (
 	"math/big"
 	"strings"
 	"sync"
+	"sync/atomic"
 )
 
 // Sort: width>0 => BitVec(width); width==0 => Bool
@@ -81,25 +82,63 @@ func IntCmp(op string, a, b *Term) *Term { // op in =,<,<=
 	return mk(&Term{op: op, args: []*Term{a, b}, width: 0})
 }
 
-var termTab = map[string]*Term{}
-var termSeq int
-var termMu sync.Mutex
+type termKey struct {
+	op         string
+	width      int
+	cval       uint64
+	isC        bool
+	name       string
+	p1, p2     int
+	bigv       string
+	a0, a1, a2 int
+	n          int
+}
 
-func mk(t *Term) *Term {
-	var sb strings.Builder
-	fmt.Fprintf(&sb, "%s/%d/%d/%v/%s/%d/%d/%s", t.op, t.width, t.cval, t.isC, t.name, t.p1, t.p2, t.bigv)
-	for _, a := range t.args {
-		fmt.Fprintf(&sb, ",%d", a.id)
+var termTab sync.Map // termKey -> *Term
+var termSeq int64
+
+func init() {
+	for _, w := range []int{1, 8, 16, 32, 64} {
+		tab := make([]*Term, smallConsts)
+		for v := 0; v < smallConsts; v++ {
+			if w < 16 && v > int(mask(w)) {
+				break
+			}
+			tab[v] = mkSlow(&Term{op: "const", width: w, cval: uint64(v), isC: true})
+		}
+		smallBV[w] = tab
 	}
-	k := sb.String()
-	termMu.Lock()
-	defer termMu.Unlock()
-	if e, ok := termTab[k]; ok {
-		return e
+	boolT = mkSlow(&Term{op: "const", width: 0, cval: 1, isC: true})
+	boolF = mkSlow(&Term{op: "const", width: 0, cval: 0, isC: true})
+}
+
+const smallConsts = 2048
+
+var smallBV = map[int][]*Term{}
+var boolT, boolF *Term
+
+func mk(t *Term) *Term { return mkSlow(t) }
+
+func mkSlow(t *Term) *Term {
+	k := termKey{op: t.op, width: t.width, cval: t.cval, isC: t.isC, name: t.name, p1: t.p1, p2: t.p2, bigv: t.bigv, n: len(t.args)}
+	switch len(t.args) {
+	case 0:
+	case 1:
+		k.a0 = t.args[0].id
+	case 2:
+		k.a0, k.a1 = t.args[0].id, t.args[1].id
+	case 3:
+		k.a0, k.a1, k.a2 = t.args[0].id, t.args[1].id, t.args[2].id
+	default:
+		panic("term with more than 3 arguments")
 	}
-	termSeq++
-	t.id = termSeq
-	termTab[k] = t
+	if e, ok := termTab.Load(k); ok {
+		return e.(*Term)
+	}
+	t.id = int(atomic.AddInt64(&termSeq, 1))
+	if e, loaded := termTab.LoadOrStore(k, t); loaded {
+		return e.(*Term)
+	}
 	return t
 }
 
@@ -250,6 +289,47 @@ func Cmp(op string, a, b *Term) *Term {
 			return Bool(true)
 		default:
 			return Bool(false)
+		}
+	}
+	// syntactic interval pre-check (unsigned upper bounds only)
+	if a.width > 0 && a.width <= 64 {
+		switch op {
+		case "bvult":
+			if b.isC && ubound(a, 6) < b.cval {
+				return Bool(true)
+			}
+			if a.isC && ubound(b, 6) <= a.cval {
+				return Bool(false)
+			}
+			if b.isC && b.cval == 0 {
+				return Bool(false)
+			}
+		case "bvule":
+			if b.isC && ubound(a, 6) <= b.cval {
+				return Bool(true)
+			}
+			if a.isC && ubound(b, 6) < a.cval {
+				return Bool(false)
+			}
+			if a.isC && a.cval == 0 {
+				return Bool(true)
+			}
+		case "=":
+			if b.isC && ubound(a, 6) < b.cval {
+				return Bool(false)
+			}
+			if a.isC && ubound(b, 6) < a.cval {
+				return Bool(false)
+			}
+		case "bvslt", "bvsle":
+			// both provably non-negative: same as unsigned
+			top := uint64(1) << uint(a.width-1)
+			if ubound(a, 6) < top && ubound(b, 6) < top {
+				if op == "bvslt" {
+					return Cmp("bvult", a, b)
+				}
+				return Cmp("bvule", a, b)
+			}
 		}
 	}
 	if op == "=" && a.width == 0 {
@@ -425,4 +505,76 @@ func (t *Term) smtDef() string {
 		return fmt.Sprintf("((_ sign_extend %d) %s)", t.p1, as[0])
 	}
 	return "(" + t.op + " " + strings.Join(as, " ") + ")"
+}
+
+// ubound returns a syntactic unsigned upper bound of a bit-vector term.
+func ubound(t *Term, depth int) uint64 {
+	if t.width <= 0 || t.width > 64 {
+		return ^uint64(0)
+	}
+	if t.isC {
+		return t.cval
+	}
+	m := mask(t.width)
+	if depth == 0 {
+		return m
+	}
+	switch t.op {
+	case "zext":
+		return ubound(t.args[0], depth-1)
+	case "bvand":
+		a, b := ubound(t.args[0], depth-1), ubound(t.args[1], depth-1)
+		if a < b {
+			return a
+		}
+		return b
+	case "bvor", "bvxor":
+		a, b := ubound(t.args[0], depth-1), ubound(t.args[1], depth-1)
+		// next power of two minus one covering both
+		x := a | b
+		r := uint64(0)
+		for r < x {
+			r = r<<1 | 1
+		}
+		if r > m {
+			r = m
+		}
+		return r
+	case "bvlshr":
+		if t.args[1].isC {
+			sh := t.args[1].cval
+			if sh >= 64 {
+				return 0
+			}
+			return ubound(t.args[0], depth-1) >> sh
+		}
+		return ubound(t.args[0], depth-1)
+	case "bvurem":
+		if t.args[1].isC && t.args[1].cval > 0 {
+			return t.args[1].cval - 1
+		}
+	case "bvudiv":
+		if t.args[1].isC && t.args[1].cval > 0 {
+			return ubound(t.args[0], depth-1) / t.args[1].cval
+		}
+	case "ite":
+		a, b := ubound(t.args[1], depth-1), ubound(t.args[2], depth-1)
+		if a > b {
+			return a
+		}
+		return b
+	case "extract":
+		if t.p2 == 0 {
+			a := ubound(t.args[0], depth-1)
+			if a <= m {
+				return a
+			}
+		}
+	case "bvadd":
+		a, b := ubound(t.args[0], depth-1), ubound(t.args[1], depth-1)
+		if s := a + b; s >= a && s <= m {
+			return s
+		}
+	}
+	return m
 }
